@@ -193,4 +193,122 @@ theorem stepPosting_simple (date : Date) (ts : TxnState String String) (idx : Na
       · simp only [Balance.get, AMap.get?_insert_ne _ _ ha]
         exact hb.val
 
+/-! ## the posting loop -/
+
+theorem loopSyntax_ok (date : Date) (acct c : String) (hc : c ≠ "") :
+    ∀ (ps : List Posting) (ctx : Ctx) (ts : TxnState String String) (idx : Nat) (x s : Rat),
+      CtxOK ctx → TSOK ts c s → BalOK ts.bal acct c x → PostingsOK acct c x ps →
+      ∃ ctx' ts', loopSyntax date ctx ts idx ps = .ok (ctx', ts') ∧ CtxOK ctx' ∧
+        TSOK ts' c (s + sumV ps) ∧ BalOK ts'.bal acct c (finalX acct x ps) := by
+  intro ps
+  induction ps with
+  | nil =>
+    intro ctx ts idx x s hctx hts hb _
+    exact ⟨ctx, ts, rfl, hctx, by simpa [sumV] using hts, by simpa [finalX] using hb⟩
+  | cons p ps ih =>
+    intro ctx ts idx x s hctx hts hb hok
+    obtain ⟨v, hamt, hbal, hrest⟩ := hok
+    have hbal' : p.balance = none ∨ ∃ b : PDec, p.balance = some (.amt b c) := by
+      rcases hbal with h | ⟨_, b, h, _⟩
+      · exact Or.inl h
+      · exact Or.inr ⟨b, h⟩
+    obtain ⟨ctx1, hctx1, hres⟩ := resolvePosting_simple ctx hctx c hc p v hamt hbal'
+    -- the expected balance handed to the book-keeping core
+    have hstep : ∃ ts1, stepPosting date ts idx
+        ⟨p.account, some (.plain (.single ⟨v.toRat, c⟩)),
+          match p.balance with
+          | some (.amt b _) => some (.single ⟨b.toRat, c⟩)
+          | _ => none⟩ = .ok ts1 ∧
+        TSOK ts1 c (s + v.toRat) ∧ BalOK ts1.bal acct c (stepX acct x p.account v.toRat) := by
+      rcases hbal with h | ⟨ha, b, h, hb2⟩
+      · have := stepPosting_simple date ts idx acct c x s p.account v.toRat none hts hb (Or.inl rfl)
+        simpa [h] using this
+      · have := stepPosting_simple date ts idx acct c x s p.account v.toRat (some b.toRat) hts hb
+          (Or.inr ⟨ha, by rw [hb2]⟩)
+        simpa [h] using this
+    obtain ⟨ts1, hs1, hts1, hb1⟩ := hstep
+    obtain ⟨ctx', ts', hloop, hctx', hts', hb'⟩ := ih ctx1 ts1 (idx + 1) _ _ hctx1 hts1 hb1 hrest
+    refine ⟨ctx', ts', ?_, hctx', ?_, ?_⟩
+    · unfold loopSyntax
+      rw [hres]
+      simp only [hs1]
+      exact hloop
+    · have : sumV (p :: ps) = v.toRat + sumV ps := by simp [sumV, hamt]
+      rw [this]
+      have e : s + (v.toRat + sumV ps) = s + v.toRat + sumV ps := by grind
+      rw [e]; exact hts'
+    · have : finalX acct x (p :: ps) = finalX acct (stepX acct x p.account v.toRat) ps := by simp [finalX, hamt]
+      rw [this]; exact hb'
+
+/-! ## one transaction, then the whole ledger -/
+
+theorem getPart_round_noPrec (a : Amount String) (c' : String) :
+    Amount.getPart (Amount.round (fun _ => none) a) c' = Amount.getPart a c' := by
+  rw [Amount.getPart_round]
+  unfold Amount.getPart
+  cases AMap.get? a c' <;> simp
+
+theorem addTransactionSyntax_ok (acct c : String) (hc : c ≠ "") (ctx : Ctx) (bal : Balance String String)
+    (t : Transaction) (x : Rat) (hctx : CtxOK ctx) (hb : BalOK bal acct c x)
+    (hok : PostingsOK acct c x t.posts) (hsum : sumV t.posts = 0) :
+    ∃ ctx' r, addTransactionSyntax ctx bal t = .ok (ctx', r) ∧ CtxOK ctx' ∧
+      BalOK r.bal acct c (finalX acct x t.posts) := by
+  have hts0 : TSOK (⟨[], none, [], bal, [], []⟩ : TxnState String String) c 0 :=
+    ⟨rfl, AMap.WF_nil, rfl, fun _ _ => rfl⟩
+  obtain ⟨ctx', ts', hloop, hctx', hts', hb'⟩ :=
+    loopSyntax_ok t.date acct c hc t.posts ctx ⟨[], none, [], bal, [], []⟩ 0 x 0 hctx hts0 hb hok
+  have hprec : ctx'.prec = fun _ => none := by
+    funext k
+    simp [Ctx.prec, hctx'.formatting]
+  have hzero : (Amount.round ctx'.prec ts'.balance).isZero = true := by
+    rw [hprec, Amount.isZero_iff_getPart _ (Amount.WF_round _ _ hts'.wf)]
+    intro c'
+    rw [getPart_round_noPrec]
+    by_cases h : c' = c
+    · subst h; rw [hts'.val, hsum]; simp
+    · exact hts'.others c' h
+  refine ⟨ctx', ⟨⟨t.date, ts'.postings⟩, ts'.bal, ts'.events ++ []⟩, ?_, hctx', hb'⟩
+  unfold addTransactionSyntax
+  rw [hloop]
+  simp only [finishTxn, hts'.unfilled, checkBalance, hzero, if_true]
+  simp
+
+/-- a ledger of such transactions: every transaction sums to zero and its assertions match the running balance -/
+def LedgerOK (acct c : String) : Rat → List Transaction → Prop
+  | _, [] => True
+  | x, t :: ts => PostingsOK acct c x t.posts ∧ sumV t.posts = 0 ∧ LedgerOK acct c (finalX acct x t.posts) ts
+
+/-- the value of `acct` after the ledger -/
+def ledgerX (acct : String) : Rat → List Transaction → Rat
+  | x, [] => x
+  | x, t :: ts => ledgerX acct (finalX acct x t.posts) ts
+
+theorem processFrom_ok (acct c : String) (hc : c ≠ "") :
+    ∀ (ts : List Transaction) (st : ProcState) (i : Nat) (x : Rat),
+      CtxOK st.ctx → BalOK st.bal acct c x → LedgerOK acct c x ts →
+      ∃ st', processFrom st i (ts.map Entry.txn) = .ok st' ∧ CtxOK st'.ctx ∧ BalOK st'.bal acct c (ledgerX acct x ts) := by
+  intro ts
+  induction ts with
+  | nil =>
+    intro st i x hctx hb _
+    exact ⟨st, rfl, hctx, hb⟩
+  | cons t ts ih =>
+    intro st i x hctx hb hok
+    obtain ⟨hp, hs, hrest⟩ := hok
+    obtain ⟨ctx', r, hadd, hctx', hb'⟩ := addTransactionSyntax_ok acct c hc st.ctx st.bal t x hctx hb hp hs
+    obtain ⟨st', hproc, hctx'', hb''⟩ :=
+      ih { ctx := ctx', bal := r.bal, txns := st.txns ++ [r.txn], events := st.events ++ r.events } (i + 1) _ hctx' hb' hrest
+    refine ⟨st', ?_, hctx'', hb''⟩
+    simp only [List.map_cons, processFrom, stepEntry, hadd]
+    exact hproc
+
+/-- **Acceptance.**  A ledger of single-commodity transactions that each sum to zero and whose balance
+assertions on `acct` equal the running balance is accepted by `process`, and `acct` ends at the running total. -/
+theorem process_ok (acct c : String) (hc : c ≠ "") (ts : List Transaction) (hok : LedgerOK acct c 0 ts) :
+    ∃ st, process (ts.map Entry.txn) = .ok st ∧
+      Amount.getPart (Balance.get st.bal acct) c = ledgerX acct 0 ts := by
+  have hb0 : BalOK ([] : Balance String String) acct c 0 := ⟨AMap.WF_nil, rfl⟩
+  obtain ⟨st', h, _, hb⟩ := processFrom_ok acct c hc ts {} 0 0 CtxOK.empty hb0 hok
+  exact ⟨st', h, hb.val⟩
+
 end Okane
